@@ -4,6 +4,7 @@
   (context, 32-bit id carried by the delivered response, 32-bit id of the context's survey when that Recv began).
 -/
 import Model.Proto.SurveyorLemmas
+import Model.Proto.SurveyorGone
 import Model.Proto.MeshLemmas
 namespace Props.C07
 open Model Model.Proto
@@ -69,6 +70,29 @@ theorem expire_when_overdue (s : Surveyor.State) (now : Nat) (v : Surveyor.Surve
     Surveyor.expireOutcomes s now = [((Surveyor.cancel s v.id "protostate").1, (Surveyor.cancel s v.id "protostate").2)] := by
   simp only [Surveyor.expireOutcomes, hone, List.foldl_cons, List.foldl_nil, List.flatMap_cons, List.flatMap_nil, List.append_nil]
   simp [hpos, hdue]
+
+/-! ### over every continuation of every history -/
+
+/-- "unexpired": once survey number k is no longer registered in state s — it expired, a newer survey on its context
+    replaced it, its context or the socket was closed — and no Recv is blocked on it, then in every state reachable from
+    s the responses delivered for k are exactly those delivered in s: however late its responses arrive, whichever
+    surveys are started meanwhile, nothing more is delivered for it (ghost list `deliveredFor`: the survey number each
+    delivered response was delivered for) -/
+theorem gone_survey_never_delivers (s : Surveyor.State) (k : Nat) (hle : k ≤ s.nsent) (hunreg : ∀ v ∈ s.surveys, v.id ≠ k)
+    (hunparked : ∀ p ∈ s.parked, p.2.2 ≠ k) :
+    ∀ t, Surveyor.ReachFrom s t → Surveyor.forSurvey k t = Surveyor.forSurvey k s :=
+  Surveyor.gone_survey_never_delivers s k hle hunreg hunparked
+
+/-- … and that is the condition cancel leaves survey `id` in (expiry, replacement and context close all go through it) -/
+theorem cancel_makes_gone (s : Surveyor.State) (id : Nat) (e : String) :
+    (∀ v ∈ (Surveyor.cancel s id e).1.surveys, v.id ≠ id) ∧ (∀ p ∈ (Surveyor.cancel s id e).1.parked, p.2.2 ≠ id) :=
+  Surveyor.cancel_makes_gone s id e
+
+/-- the ghost list is tied to the one `recv_only_current` speaks about: entry by entry it names the survey whose 32-bit
+    id the delivered response was checked against -/
+theorem delivered_for_names_the_survey (s : Surveyor.State) (h : Surveyor.Reach s) :
+    s.delivered.map (·.2.2) = s.deliveredFor.map Surveyor.enc :=
+  Surveyor.reach_tied s h
 
 example : Surveyor.Inv Surveyor.init := by simp [Surveyor.Inv, Surveyor.init]
 
